@@ -283,6 +283,12 @@ func (buf ingestBuffer) search(key []byte, maxVersion *uint64) (*kv.Entry, error
 				hi = mid
 			}
 		}
+		// Collect the tables whose range covers the key, then consult them newest
+		// first (highest file id): a later table only replaces the candidate
+		// for a strictly greater version, so among equal versions (every
+		// non-transactional write uses the same one) the newest table wins
+		// instead of whichever range happens to sort last by its start key.
+		var cands []*table
 		for i := lo - 1; i >= 0; i-- {
 			if i < len(sh.prefixMax) && utils.CompareUserKeys(key, sh.prefixMax[i]) > 0 {
 				break
@@ -294,10 +300,14 @@ func (buf ingestBuffer) search(key []byte, maxVersion *uint64) (*kv.Entry, error
 			if utils.CompareUserKeys(key, rng.max) > 0 {
 				continue
 			}
-			if rng.tbl.MaxVersionVal() <= *maxVersion {
+			cands = append(cands, rng.tbl)
+		}
+		sort.Slice(cands, func(i, j int) bool { return cands[i].fid > cands[j].fid })
+		for _, tbl := range cands {
+			if tbl.MaxVersionVal() <= *maxVersion {
 				continue
 			}
-			if entry, err := rng.tbl.Search(key, maxVersion); err == nil {
+			if entry, err := tbl.Search(key, maxVersion); err == nil {
 				if best != nil {
 					best.DecrRef()
 				}
